@@ -33,5 +33,6 @@ func init() {
 		rules.WorkloadIdentity(p, r, "C17-identity")
 		rules.KindTables(p, r, "C17-kinds")
 		rules.QueryPathWrites(p, r, "C17-pure")
+		rules.PodSpecReadAlike(p, r, "C17-spec")
 	})
 }
